@@ -684,6 +684,16 @@ func init() {
 			}
 			return nil
 		},
+		// sync.Mutex / RWMutex: sequentially no-ops. While a lock is held, stores to package-level state
+		// are synchronised writes: they are recorded but not counted by the write monitor (the reduced
+		// form of C11 does not decide them; stores to memory of frames are counted as always).
+		"(*sync.Mutex).Lock":      func(i *interpreter, fr *frame, a []value) value { i.lockDepth++; return nil },
+		"(*sync.Mutex).Unlock":    func(i *interpreter, fr *frame, a []value) value { i.lockDepth--; return nil },
+		"(*sync.Mutex).TryLock":   func(i *interpreter, fr *frame, a []value) value { i.lockDepth++; return true },
+		"(*sync.RWMutex).Lock":    func(i *interpreter, fr *frame, a []value) value { i.lockDepth++; return nil },
+		"(*sync.RWMutex).Unlock":  func(i *interpreter, fr *frame, a []value) value { i.lockDepth--; return nil },
+		"(*sync.RWMutex).RLock":   func(i *interpreter, fr *frame, a []value) value { return nil },
+		"(*sync.RWMutex).RUnlock": func(i *interpreter, fr *frame, a []value) value { return nil },
 		"(*sync.Once).Do": func(i *interpreter, fr *frame, a []value) value {
 			cell := a[0].(*value)
 			if i.onceDone == nil {
